@@ -35,6 +35,13 @@ SQFS_COMPRESSOR compressor_get_default(void)
 			sqfs_drop(temp);
 			return cmp_ids[i];
 		}
+
+		/* Compiled in, but could not be set up right now (e.g. out
+		   of memory): it still is the default. Creating it for real
+		   later on reports the problem, instead of silently packing
+		   with a different compressor. */
+		if (ret != SQFS_ERROR_UNSUPPORTED)
+			return cmp_ids[i];
 	}
 
 #ifdef WITH_LZO
